@@ -18,17 +18,28 @@ func init() {
 	register("slot.reuse", func(tier string) []Variant {
 		var vs []Variant
 		for _, akind := range []string{"client", "server"} {
-			for _, aclose := range []string{"user", "peer", "hup-queued+user"} {
+			for _, aclose := range []string{"user", "peer", "hup-queued+user", "user+peerevent"} {
 				for _, op := range append(append([]string{}, staleOps...), "Release@during", "Next(1)@during", "Flush@during") {
 					for _, early := range []bool{false, true} {
 						if early && op != "none" {
 							continue
 						}
+						if aclose == "user+peerevent" && !(early && op == "none") {
+							continue // only with B opened concurrently: the window is "event fetched, not yet dispatched"
+						}
 						akind, aclose, op, early := akind, aclose, op, early
 						vs = append(vs, Variant{
 							Name: fmt.Sprintf("A=%s,Aclose=%s,stale=%s,reopen-early=%v", akind, aclose, op, early),
-							Make: func() *vsched.Scenario { return slotScenario(akind, aclose, op, early) },
+							Make: func() *vsched.Scenario { return slotScenario(akind, aclose, op, early, false) },
 						})
+						if early || (op == "none" && aclose != "peer") {
+							// the same with the poller's spare slot list drained first, so that B's
+							// allocation takes the path that has to grow the cache
+							vs = append(vs, Variant{
+								Name: fmt.Sprintf("A=%s,Aclose=%s,stale=%s,reopen-early=%v,spare-slots=drained", akind, aclose, op, early),
+								Make: func() *vsched.Scenario { return slotScenario(akind, aclose, op, early, true) },
+							})
+						}
 					}
 				}
 			}
@@ -37,7 +48,7 @@ func init() {
 	})
 }
 
-func slotScenario(akind, aclose, stale string, early bool) *vsched.Scenario {
+func slotScenario(akind, aclose, stale string, early, drained bool) *vsched.Scenario {
 	during := strings.HasSuffix(stale, "@during")
 	stale = strings.TrimSuffix(stale, "@during")
 	var A, B netpoll.Connection
@@ -83,6 +94,14 @@ func slotScenario(akind, aclose, stale string, early bool) *vsched.Scenario {
 		slotA := netpoll.VerifOperator(A)
 		_, _, polls := netpoll.VerifManagerState()
 		poll := polls[0]
+		if drained {
+			for i := 0; i < 4096; i++ {
+				if _, spare, _ := netpoll.VerifOpCacheDetail(poll); len(spare) == 0 {
+					break
+				}
+				poll.Alloc() // taken and never registered: only empties the spare list
+			}
+		}
 		// close A
 		openB := func() {
 			a2, b2 = vsyscall.HSocketpair(0)
@@ -126,6 +145,11 @@ func slotScenario(akind, aclose, stale string, early bool) *vsched.Scenario {
 			vsched.Go("opener", openB)
 		}
 		if aclose == "user" {
+			A.Close()
+		} else if aclose == "user+peerevent" {
+			// the peer acts at the same time, so the poller may have fetched an event for A that it
+			// has not dispatched yet when the user closes A and B takes a slot
+			vsched.Go("peerA", func() { vsyscall.HClose(b1) })
 			A.Close()
 		} else if aclose == "hup-queued+user" {
 			// the poller has fetched and queued A's hang-up, but the goroutine that delivers it is
